@@ -45,10 +45,24 @@ def safePrim : Prim → Bool
   | .unknown => false
   | _ => true
 
-/-- A tracer style that leaves the trace function as it found it. -/
-def TraceOK (style : TraceStyle) : Prop := style.installs = true → style.restores = true
+/-- A tracer style that leaves the trace function as it found it - also, when the executed code imports another
+    student file (`nested`), after being re-entered inside its own `with`. -/
+def TraceOK (style : TraceStyle) (nested : Bool) : Prop := style.leaks nested = false
 
-instance (style : TraceStyle) : Decidable (TraceOK style) := by unfold TraceOK; infer_instance
+instance (style : TraceStyle) (nested : Bool) : Decidable (TraceOK style nested) := by unfold TraceOK; infer_instance
+
+theorem TraceOK.to_false {style : TraceStyle} {nested : Bool} (h : TraceOK style nested) : TraceOK style false := by
+  unfold TraceOK TraceStyle.leaks at *
+  cases nested
+  · exact h
+  · cases hi : style.installs <;> cases hr : style.restores <;> simp_all
+
+/-- Not importing is the easier case. -/
+theorem TraceOK.of_nested {style : TraceStyle} (h : TraceOK style true) (nested : Bool) : TraceOK style nested := by
+  unfold TraceOK TraceStyle.leaks at *
+  cases nested
+  · cases hi : style.installs <;> cases hr : style.restores <;> simp_all
+  · exact h
 
 theorem restore_install (m : MockProbe) (g : Globals) (a b c : Nat) :
     PatchFrame.restore
@@ -63,7 +77,7 @@ theorem restore_install (m : MockProbe) (g : Globals) (a b c : Nat) :
     simp [PatchFrame.restore]
 
 /-- The key invariant: no primitive step changes what the globals would be once all patches are stopped. -/
-theorem unwind_applyPrim (env : Env) (hr : env.probe.stopRestores = true) (ht : TraceOK env.style)
+theorem unwind_applyPrim (env : Env) (hr : env.probe.stopRestores = true) (ht : TraceOK env.style env.nested)
     (s : St) (q : Prim) (hq : safePrim q = true) :
     unwind (applyPrim env s q).patches (applyPrim env s q).g = unwind s.patches s.g := by
   cases q <;> try (simp [safePrim] at hq) <;> try rfl
@@ -79,12 +93,12 @@ theorem unwind_applyPrim (env : Env) (hr : env.probe.stopRestores = true) (ht : 
     simp only [applyPrim]
     split
     · rename_i hc
-      simp only [Bool.and_eq_true, Bool.not_eq_true'] at hc
-      have := ht hc.1.2
+      simp only [Bool.and_eq_true] at hc
+      have : env.style.leaks env.nested = false := ht
       simp [this] at hc
     · rfl
 
-theorem unwind_applyPrims (env : Env) (hr : env.probe.stopRestores = true) (ht : TraceOK env.style)
+theorem unwind_applyPrims (env : Env) (hr : env.probe.stopRestores = true) (ht : TraceOK env.style env.nested)
     (qs : List Prim) (s : St) (hq : qs.all safePrim = true) :
     unwind (applyPrims env s qs).patches (applyPrims env s qs).g = unwind s.patches s.g := by
   induction qs generalizing s with
@@ -193,17 +207,25 @@ theorem unwind_nil (g : Globals) : unwind [] g = g := rfl
 /-- C05, one execution, for any configuration that passes the check. -/
 theorem execute_restores (cfg : Cfg) (hr : cfg.probe.stopRestores = true)
     (hchk : ∀ sig, checkC05 cfg.probe cfg.exec sig = true)
-    (style : TraceStyle) (hst : TraceOK style) (s : St) (hs : s.Inv) (t : Termination) (inject : Bool) :
-    (execute cfg style s t inject).1.Inv ∧ (execute cfg style s t inject).1.g = s.g := by
+    (style : TraceStyle) (nested : Bool) (hst : TraceOK style nested) (s : St) (hs : s.Inv) (t : Termination)
+    (inject : Bool) :
+    (execute cfg style nested s t inject).1.Inv ∧ (execute cfg style nested s t inject).1.g = s.g := by
   have hc := hchk (sigOf cfg t inject)
   simp only [checkC05, Bool.and_eq_true, beq_iff_eq] at hc
   obtain ⟨⟨hp, ho⟩, hsafe⟩ := hc
   have hps : s.patches = [] := hs.1
   have hos : s.stdouts = [] := hs.2
   simp only [execute, baseOf_inv s hs]
-  have h1 := applyPrims_patches_length (envOf cfg style t) (plan cfg.probe base0 (sigOf cfg t inject) cfg.exec).1 s
-  have h2 := applyPrims_stdouts_length (envOf cfg style t) (plan cfg.probe base0 (sigOf cfg t inject) cfg.exec).1 s
-  have h3 := unwind_applyPrims (envOf cfg style t) hr hst
+  have hst' : TraceOK (envOf cfg style nested t).style (envOf cfg style nested t).nested := by
+    show TraceOK style (nested && cfg.imp.reentersTracer)
+    cases hre : cfg.imp.reentersTracer
+    · simpa using hst.to_false
+    · simpa using hst
+  have h1 := applyPrims_patches_length (envOf cfg style nested t)
+    (plan cfg.probe base0 (sigOf cfg t inject) cfg.exec).1 s
+  have h2 := applyPrims_stdouts_length (envOf cfg style nested t)
+    (plan cfg.probe base0 (sigOf cfg t inject) cfg.exec).1 s
+  have h3 := unwind_applyPrims (envOf cfg style nested t) hr hst'
     (plan cfg.probe base0 (sigOf cfg t inject) cfg.exec).1 s hsafe
   simp only [hps, hos, List.length_nil] at h1 h2
   have e1 := List.eq_nil_of_length_eq_zero (h1.trans hp)
@@ -226,11 +248,12 @@ theorem sigOf_contained (cfg : Cfg) (t : Termination) (e : ExcDesc) (ht : t.exc?
 
 /-- C04, one failing execution, for any configuration that passes the check. -/
 theorem execute_contains (cfg : Cfg) (hchk : ∀ sig, checkC04 cfg.probe cfg.exec sig = true)
-    (style : TraceStyle) (s : St) (hs : s.Inv) (t : Termination) (e : ExcDesc) (ht : t.exc? = some e)
+    (style : TraceStyle) (nested : Bool) (s : St) (hs : s.Inv) (t : Termination) (e : ExcDesc)
+    (ht : t.exc? = some e)
     (hc : e.isException = true ∨ e.isSystemExit = true) (hz : hazardous cfg.unguarded e = false) :
-    (execute cfg style s t false).2 = .returned ∧
-    (execute cfg style s t false).1.exception = some (reportedCls e) ∧
-    (execute cfg style s t false).1.feedbacks = s.feedbacks ++
+    (execute cfg style nested s t false).2 = .returned ∧
+    (execute cfg style nested s t false).1.exception = some (reportedCls e) ∧
+    (execute cfg style nested s t false).1.feedbacks = s.feedbacks ++
       [{ label := mapLabel (reportedCls e), excName := reportedCls e, line := chooseLine cfg.strategy e }] := by
   have hk := hchk (sigOf cfg t false)
   obtain ⟨hcont, hkind⟩ := sigOf_contained cfg t e ht hc hz
@@ -243,7 +266,7 @@ theorem execute_contains (cfg : Cfg) (hchk : ∀ sig, checkC04 cfg.probe cfg.exe
     | raised => simp [hkk, hcont] at hk; exact ⟨hk.1.1, hk.1.2, hk.2⟩
     | compileFailed => simp [hkk, hcont] at hk; exact ⟨hk.1.1, hk.1.2, hk.2⟩
   obtain ⟨hret, hcap, hslot⟩ := hk'
-  have henv : (envOf cfg style t).exc = some e := by simp [envOf, ht]
+  have henv : (envOf cfg style nested t).exc = some e := by simp [envOf, ht]
   simp only [execute, baseOf_inv s hs]
   refine ⟨hret, ?_, ?_⟩
   · rw [applyPrims_exception, hslot]
@@ -253,10 +276,10 @@ theorem execute_contains (cfg : Cfg) (hchk : ∀ sig, checkC04 cfg.probe cfg.exe
 
 /-- C04, a normal execution: returns, nothing recorded, exception slot empty. -/
 theorem execute_normal (cfg : Cfg) (hchk : ∀ sig, checkC04 cfg.probe cfg.exec sig = true)
-    (style : TraceStyle) (s : St) (hs : s.Inv) (inject : Bool) :
-    (execute cfg style s .normal inject).2 = .returned ∧
-    (execute cfg style s .normal inject).1.exception = none ∧
-    (execute cfg style s .normal inject).1.feedbacks = s.feedbacks := by
+    (style : TraceStyle) (nested : Bool) (s : St) (hs : s.Inv) (inject : Bool) :
+    (execute cfg style nested s .normal inject).2 = .returned ∧
+    (execute cfg style nested s .normal inject).1.exception = none ∧
+    (execute cfg style nested s .normal inject).1.feedbacks = s.feedbacks := by
   have hk := hchk (sigOf cfg .normal inject)
   have hkind : (sigOf cfg .normal inject).kind = .normal := rfl
   unfold checkC04 at hk
